@@ -528,7 +528,7 @@ def eval_cond(k, env):
     return None
 
 
-def check_wrapper(chk, repo):
+def check_wrapper(chk, repo, rule_delegate='R05.6'):
     # signature order of the table correlation
     raw_init = repo.func(RAW, 'ThermochemRawData.__init__')
     sig = params(raw_init)[1:]
@@ -539,7 +539,7 @@ def check_wrapper(chk, repo):
         for e in p.stores():
             if e[1] == A('_correlation'):
                 built.append((p, e[2]))
-    chk.need('R05.6', len(built), 1, 'constructions of the delegate '
+    chk.need(rule_delegate, len(built), 1, 'constructions of the delegate '
                                      'correlation')
     exp_pair = ('call', A('_expand_ND_Cp_data'), (A('ND_Cp_data'),), ())
     for p, v in built:
@@ -556,12 +556,12 @@ def check_wrapper(chk, repo):
               and not v[3] and v[2] in (want_args, want_alt)
               and sig[:6] == ['ND_H_ref', 'ND_S_ref', 'Ts', 'ND_Cps',
                               'T_ref', 'range'])
-        chk.ob('R05.6', ok, INC, setup, key='delegate-args',
+        chk.ob(rule_delegate, ok, INC, setup, key='delegate-args',
                what='the delegate is ThermochemRawData(H_ref or 0, S_ref or '
                     '0, sorted Ts, sorted Cps, T_ref, range) in signature '
                     'order', found=show(v),
                required='ThermochemRawData%s' % (tuple(sig),))
-        chk.ob('R05.6', p.says(('truthy', A('ND_Cp_data')), True), INC,
+        chk.ob(rule_delegate, p.says(('truthy', A('ND_Cp_data')), True), INC,
                setup,
                key='delegate-only-with-Cp',
                what='the delegate is built only when heat-capacity data '
@@ -583,7 +583,7 @@ def check_wrapper(chk, repo):
                                                    ('list', ())))
         else:
             ok = ok and p.outcome[1] in alts
-    chk.ob('R05.6', ok and len(eps) == 2, INC, ex, key='expand-sorted',
+    chk.ob(rule_delegate, ok and len(eps) == 2, INC, ex, key='expand-sorted',
            what='the Cp mapping expands to (Ts, Cps) sorted by temperature',
            found='; '.join(p.describe() for p in eps)[:400])
     # delegation of get_X on the with-data branch
@@ -594,9 +594,9 @@ def check_wrapper(chk, repo):
                 (('name', tn),), ())
         rets = [p for p in sym.summarize(f) if p.outcome[0] == 'return'
                 and p.says(('truthy', A('ND_Cp_data')), True)]
-        chk.need('R05.6', len(rets), 1, 'with-data return of ' + mname)
+        chk.need(rule_delegate, len(rets), 1, 'with-data return of ' + mname)
         for p in rets:
-            chk.ob('R05.6', p.outcome[1] == want, INC, f,
+            chk.ob(rule_delegate, p.outcome[1] == want, INC, f,
                    key='delegates:' + mname,
                    what='with heat-capacity data %s is the table '
                         'correlation\'s %s at the same T' % (mname, mname),
